@@ -18,7 +18,7 @@ import Pog.Props.Loader
     … and the call really returns (F58 repaired: Union dispatch included)                  (full)    `declared_2xx_returns`, `declared_2xx_union_dispatch_returns`
     a declared 2xx response without content returns None                                    (full, distinct keys) `no_content_returns_none`
     every other declared 2xx response has its own arm with its own return                   (full, distinct keys) `secondary_2xx_arm_exists`
-    text responses return the text sent                                                     ✗         `text_response_parsed_as_json_counterexample`
+    text responses (`text/*` only, plain strings) return the text sent                      (full, distinct keys; F32b repaired) `text_response_returns_text`, `text_response_former_witness`
     an NDJSON stream is iterated with `iter_ndjson`, not with the SSE parser                (full, distinct keys; F43 repaired)  `ndjson_stream_uses_iter_ndjson`, `ndjson_stream_former_witness`
     binary (non-streamed) responses return the bytes sent                                   ✗         `secondary_binary_parsed_as_json_counterexample`
     a secondary 2xx response with several media types dispatches on the Content-Type        ✗ (F59)   `secondary_2xx_ignores_content_type_counterexample`
@@ -138,11 +138,59 @@ example : isPrimaryArm exTwo.responses ⟨.num 202, [⟨mtJson, .model "Accepted
     handle .bundled exTwo ⟨202, none⟩ = .returned (.structure (.model "Accepted".toList)) ∧
     handle .bundled exTwo ⟨200, none⟩ = .returned (.structure (.model "Job".toList)) := by decide +kernel
 
-/-- ✗ C05 (text responses return the text sent): a `text/plain` string response is returned as
-    `cast(str, response.json())` — the body is parsed as JSON, a plain-text body raises in `response.json()`. -/
-theorem text_response_parsed_as_json_counterexample :
+/-- C05 "text responses return the text sent" (F32b repaired): a declared 2xx response whose media types are all
+    `text/*`, each with a plain string schema, is returned as `response.text` — whether it is the primary response
+    (one media type or several) or has an arm of its own.  A primary response that is STREAMED (`text/event-stream`)
+    is an async iterator instead, hence `hns`.  Before the repair both arms were `cast(str, response.json())`. -/
+theorem text_response_returns_text (t : TransportKind) (op : Op) (r : Reply) (hm : moduleOk op = true)
+    (hnd : (op.responses.map (·.key)).Nodup) (h2 : 200 ≤ r.status ∧ r.status < 300)
+    (x : Resp) (hx : x ∈ op.responses) (hk : x.key = .num r.status) (hne : x.content ≠ [])
+    (htx : x.content.all (fun m => isTextCt m.mt) = true) (hsh : ∀ m ∈ x.content, m.shape = .string)
+    (hns : isPrimaryArm op.responses x = true → respStream x = false) :
+    handle t op r = .returned .text := by
+  have hsel := select_declared_2xx op.responses r.status h2 hnd x hx hk
+  have hb : ¬ (r.status < 200 ∨ r.status ≥ 300) := by omega
+  by_cases hp : isPrimaryArm op.responses x = true
+  · obtain ⟨n, hn⟩ := isPrimaryArm_iff.mp hp
+    have hres := resolveStrategy_text (processedPrimary_spec hn).2.2.2.2 hne (hns hp) htx hsh
+    have hact : selectAction op.responses r.status = .retStrategy := by
+      rw [hsel, if_pos hp, hres]
+      rfl
+    unfold handle
+    cases t <;> simp [hm, hb, hact, runAction, returnOf, hres, strategyRet, RetKind.needsStructure]
+  · have hemp : x.content.isEmpty = false := by
+      cases hc : x.content with
+      | nil => exact absurd hc hne
+      | cons _ _ => rfl
+    have hact : selectAction op.responses r.status = .retSecondary .text := by
+      rw [hsel, if_neg hp, hemp, secondaryRet_text hne htx hsh]
+      rfl
+    unfold handle
+    cases t <;> simp [hm, hb, hact, runAction, returnOf, RetKind.needsStructure]
+
+/-- `GET /motd`: 200 is JSON, 203 the same message as `text/plain` or `text/html`. -/
+def exText : Op :=
+  ⟨"GET".toList, [.lit "/motd".toList], [], none,
+   [⟨.num 200, [⟨mtJson, .model "Motd".toList⟩]⟩,
+    ⟨.num 203, [⟨"text/plain".toList, .string⟩, ⟨"text/html".toList, .string⟩]⟩]⟩
+
+/-- The hypotheses of `text_response_returns_text` are satisfiable by an arm that is not the primary one and by a primary one. -/
+example : moduleOk exText = true ∧ (exText.responses.map (·.key)).Nodup ∧
+    isPrimaryArm exText.responses ⟨.num 203, [⟨"text/plain".toList, .string⟩, ⟨"text/html".toList, .string⟩]⟩ = false ∧
+    handle .passthrough exText ⟨203, some "text/html".toList⟩ = .returned .text := by decide +kernel
+
+example :
+    let x : Resp := ⟨.num 200, [⟨"text/plain".toList, .string⟩, ⟨"text/csv".toList, .string⟩]⟩
+    isPrimaryArm [x, ⟨.num 404, []⟩] x = true ∧ respStream x = false ∧
+    x.content.all (fun m => isTextCt m.mt) = true := by decide +kernel
+
+/-- The former witness of F32b — a `text/plain` string response, then emitted as `cast(str, response.json())` (a
+    plain-text body raised in `response.json()`) — returns the text; the same schema served as JSON is still decoded. -/
+theorem text_response_former_witness :
     handle .bundled ⟨"GET".toList, [.lit "/motd".toList], [], none,
-      [⟨.num 200, [⟨"text/plain".toList, .string⟩]⟩]⟩ ⟨200, some "text/plain".toList⟩ = .returned (.cast .str) := by
+      [⟨.num 200, [⟨"text/plain".toList, .string⟩]⟩]⟩ ⟨200, some "text/plain".toList⟩ = .returned .text ∧
+    handle .bundled ⟨"GET".toList, [.lit "/motd".toList], [], none,
+      [⟨.num 200, [⟨mtJson, .string⟩]⟩]⟩ ⟨200, some "application/json".toList⟩ = .returned (.cast .str) := by
   decide +kernel
 
 /-- C05 "streaming responses yield the events the server sent", which parser (F43 repaired): a primary response that
